@@ -110,7 +110,8 @@ type Ctx struct {
 	Repo     string // source tree under verification (default /repo)
 	VerifDir string // /verif
 	Rand     *Rand
-	Escalate int // budget multiplier (>1 when a proof or the correspondence broke)
+	Escalate int      // budget multiplier (>1 when the anchored code drifted, or a proof / the correspondence broke)
+	Drift    []string // anchored files whose token stream differs from the blessed tree
 }
 
 // Guard runs f and maps a Go panic to the protocol word "panic".
